@@ -1,8 +1,274 @@
-import Amqp.Model.Mgmt
+import Amqp.Lemmas.Mgmt
+/-!
+# C19 — Management API calls address exactly the named resource
+
+Model: `Amqp/Model/Mgmt.lean`.  The endpoint table `Gen.Mgmt.ops` (verb, path template, how every
+`%s` is filled — `quote(x, safe)` or raw —, JSON payload members, extra headers, pass-through
+arguments, post-processing) is regenerated from `amqpstorm/management/*.py` on every run, so the
+table theorems are re-checked against what the code says now: dropping a `quote`, changing its
+`safe` argument, a template, a verb or a payload member makes them fail.
+
+`Spec.endpoints` is the RabbitMQ HTTP API reference written down by hand.
+-/
 namespace Amqp.C19
 open Amqp Amqp.Mgmt
 
-/-- placeholder while the harness is brought up -/
-theorem request_failed : request .failed = .apiConnectionError := rfl
+/-! ## the documented endpoints -/
+
+inductive PSeg
+  | lit (s : String)
+  | name (alts : List String)     -- the segment is the percent-encoded value of this parameter
+deriving DecidableEq, Repr
+
+structure SpecRow where
+  op : String
+  guard : String
+  verb : String
+  path : List PSeg
+  body : List (String × String)
+  headers : List (String × String)
+  pass : List (String × String)
+  post : String
+deriving DecidableEq, Repr
+
+namespace Spec
+/-- RabbitMQ HTTP API reference (rabbitmq_management `/api`), one row per operation and branch:
+    verb, path segments, JSON members (`$p` = the parameter `p`, `a|b` = `a or b`). -/
+def endpoints : List SpecRow := [
+  ⟨"ManagementApi.aliveness_test", "", "get", [.lit "aliveness-test", .name ["virtual_host"]], [], [], [], ""⟩,
+  ⟨"ManagementApi.cluster_name", "", "get", [.lit "cluster-name"], [], [], [], ""⟩,
+  ⟨"ManagementApi.node", "", "get", [.lit "nodes", .name ["name"]], [], [], [], ""⟩,
+  ⟨"ManagementApi.nodes", "", "get", [.lit "nodes"], [], [], [], ""⟩,
+  ⟨"ManagementApi.overview", "", "get", [.lit "overview"], [], [], [], ""⟩,
+  ⟨"ManagementApi.top", "", "call:ManagementApi.nodes", [], [], [], [], "iterated"⟩,
+  ⟨"ManagementApi.top", "for node in self.nodes()", "get", [.lit "top", .name ["node['name']"]], [], [], [], "collected"⟩,
+  ⟨"ManagementApi.whoami", "", "get", [.lit "whoami"], [], [], [], ""⟩,
+  ⟨"Basic.publish", "", "post", [.lit "exchanges", .name ["virtual_host"], .name ["exchange"], .lit "publish"], [("routing_key", "$routing_key"), ("payload", "$body"), ("payload_encoding", "$payload_encoding"), ("properties", "$properties|{}"), ("vhost", "$virtual_host")], [], [], ""⟩,
+  ⟨"Basic.get", "", "post", [.lit "queues", .name ["virtual_host"], .name ["queue"], .lit "get"], [("count", "$count"), ("requeue", "$requeue"), ("ackmode", "('ack_requeue_true' if requeue else 'ack_requeue_false')"), ("encoding", "$encoding"), ("truncate", "$truncate"), ("vhost", "$virtual_host")], [], [], "postprocessed"⟩,
+  ⟨"Channel.get", "", "get", [.lit "channels", .name ["channel"]], [], [], [], ""⟩,
+  ⟨"Channel.list", "", "list", [.lit "channels"], [], [], [("name", "$name"), ("use_regex", "$use_regex"), ("page_size", "$page_size")], ""⟩,
+  ⟨"Connection.get", "", "get", [.lit "connections", .name ["connection"]], [], [], [], ""⟩,
+  ⟨"Connection.list", "", "list", [.lit "connections"], [], [], [("name", "$name"), ("use_regex", "$use_regex"), ("page_size", "$page_size")], ""⟩,
+  ⟨"Connection.close", "", "delete", [.lit "connections", .name ["connection"]], [("name", "$connection"), ("reason", "$reason")], [("X-Reason", "$reason")], [], ""⟩,
+  ⟨"Exchange.get", "", "get", [.lit "exchanges", .name ["virtual_host"], .name ["exchange"]], [], [], [], ""⟩,
+  ⟨"Exchange.list", "show_all", "list", [.lit "exchanges"], [], [], [("name", "$name"), ("use_regex", "$use_regex"), ("page_size", "$page_size")], ""⟩,
+  ⟨"Exchange.list", "not (show_all)", "list", [.lit "exchanges", .name ["virtual_host"]], [], [], [("name", "$name"), ("use_regex", "$use_regex"), ("page_size", "$page_size")], ""⟩,
+  ⟨"Exchange.declare", "passive", "call:Exchange.get", [], [], [], [("#0", "$exchange"), ("virtual_host", "$virtual_host")], ""⟩,
+  ⟨"Exchange.declare", "not (passive)", "put", [.lit "exchanges", .name ["virtual_host"], .name ["exchange"]], [("durable", "$durable"), ("auto_delete", "$auto_delete"), ("internal", "$internal"), ("type", "$exchange_type"), ("arguments", "$arguments|{}"), ("vhost", "$virtual_host")], [], [], ""⟩,
+  ⟨"Exchange.delete", "", "delete", [.lit "exchanges", .name ["virtual_host"], .name ["exchange"]], [], [], [], ""⟩,
+  ⟨"Exchange.bindings", "", "get", [.lit "exchanges", .name ["virtual_host"], .name ["exchange"], .lit "bindings", .lit "source"], [], [], [], ""⟩,
+  ⟨"Exchange.bind", "", "post", [.lit "bindings", .name ["virtual_host"], .lit "e", .name ["source"], .lit "e", .name ["destination"]], [("destination", "$destination"), ("destination_type", "'e'"), ("routing_key", "$routing_key"), ("source", "$source"), ("arguments", "$arguments|{}"), ("vhost", "$virtual_host")], [], [], ""⟩,
+  ⟨"Exchange.unbind", "", "delete", [.lit "bindings", .name ["virtual_host"], .lit "e", .name ["source"], .lit "e", .name ["destination"], .name ["properties_key", "routing_key"]], [("destination", "$destination"), ("destination_type", "'e'"), ("properties_key", "$properties_key|$routing_key"), ("source", "$source"), ("vhost", "$virtual_host")], [], [], ""⟩,
+  ⟨"HealthChecks.get", "not node", "get", [.lit "healthchecks", .lit "node", .lit ""], [], [], [], ""⟩,
+  ⟨"HealthChecks.get", "not (not node)", "get", [.lit "healthchecks", .lit "node", .name ["node"]], [], [], [], ""⟩,
+  ⟨"Queue.get", "", "get", [.lit "queues", .name ["virtual_host"], .name ["queue"]], [], [], [], ""⟩,
+  ⟨"Queue.list", "show_all", "list", [.lit "queues"], [], [], [("name", "$name"), ("use_regex", "$use_regex"), ("page_size", "$page_size")], ""⟩,
+  ⟨"Queue.list", "not (show_all)", "list", [.lit "queues", .name ["virtual_host"]], [], [], [("name", "$name"), ("use_regex", "$use_regex"), ("page_size", "$page_size")], ""⟩,
+  ⟨"Queue.declare", "passive", "call:Queue.get", [], [], [], [("#0", "$queue"), ("virtual_host", "$virtual_host")], ""⟩,
+  ⟨"Queue.declare", "not (passive)", "put", [.lit "queues", .name ["virtual_host"], .name ["queue"]], [("durable", "$durable"), ("auto_delete", "$auto_delete"), ("arguments", "$arguments|{}"), ("vhost", "$virtual_host")], [], [], ""⟩,
+  ⟨"Queue.delete", "", "delete", [.lit "queues", .name ["virtual_host"], .name ["queue"]], [], [], [], ""⟩,
+  ⟨"Queue.purge", "", "delete", [.lit "queues", .name ["virtual_host"], .name ["queue"], .lit "contents"], [], [], [], ""⟩,
+  ⟨"Queue.bindings", "", "get", [.lit "queues", .name ["virtual_host"], .name ["queue"], .lit "bindings"], [], [], [], ""⟩,
+  ⟨"Queue.bind", "", "post", [.lit "bindings", .name ["virtual_host"], .lit "e", .name ["exchange"], .lit "q", .name ["queue"]], [("destination", "$queue"), ("destination_type", "'q'"), ("routing_key", "$routing_key"), ("source", "$exchange"), ("arguments", "$arguments|{}"), ("vhost", "$virtual_host")], [], [], ""⟩,
+  ⟨"Queue.unbind", "", "delete", [.lit "bindings", .name ["virtual_host"], .lit "e", .name ["exchange"], .lit "q", .name ["queue"], .name ["properties_key", "routing_key"]], [("destination", "$queue"), ("destination_type", "'q'"), ("properties_key", "$properties_key|$routing_key"), ("source", "$exchange"), ("vhost", "$virtual_host")], [], [], ""⟩,
+  ⟨"User.get", "", "get", [.lit "users", .name ["username"]], [], [], [], ""⟩,
+  ⟨"User.list", "", "get", [.lit "users"], [], [], [], ""⟩,
+  ⟨"User.create", "", "put", [.lit "users", .name ["username"]], [("password", "$password"), ("tags", "$tags")], [], [], ""⟩,
+  ⟨"User.delete", "isinstance(username, list)", "post", [.lit "users", .lit "bulk-delete"], [("users", "$username")], [], [], ""⟩,
+  ⟨"User.delete", "not (isinstance(username, list))", "delete", [.lit "users", .name ["username"]], [], [], [], ""⟩,
+  ⟨"User.get_permission", "", "get", [.lit "permissions", .name ["virtual_host"], .name ["username"]], [], [], [], ""⟩,
+  ⟨"User.get_permissions", "", "get", [.lit "users", .name ["username"], .lit "permissions"], [], [], [], ""⟩,
+  ⟨"User.set_permission", "", "put", [.lit "permissions", .name ["virtual_host"], .name ["username"]], [("configure", "$configure_regex"), ("read", "$read_regex"), ("write", "$write_regex")], [], [], ""⟩,
+  ⟨"User.delete_permission", "", "delete", [.lit "permissions", .name ["virtual_host"], .name ["username"]], [], [], [], ""⟩,
+  ⟨"VirtualHost.get", "", "get", [.lit "vhosts", .name ["virtual_host"]], [], [], [], ""⟩,
+  ⟨"VirtualHost.list", "", "get", [.lit "vhosts"], [], [], [], ""⟩,
+  ⟨"VirtualHost.create", "", "put", [.lit "vhosts", .name ["virtual_host"]], [], [], [], ""⟩,
+  ⟨"VirtualHost.delete", "", "delete", [.lit "vhosts", .name ["virtual_host"]], [], [], [], ""⟩,
+  ⟨"VirtualHost.get_permissions", "", "get", [.lit "vhosts", .name ["virtual_host"], .lit "permissions"], [], [], [], ""⟩
+]
+end Spec
+
+def zipSegs : List Seg → List Arg → Option (List PSeg)
+  | [], [] => some []
+  | [], _ :: _ => none
+  | .lit s :: segs, as => (zipSegs segs as).map (PSeg.lit (String.ofList s) :: ·)
+  | .hole :: segs, a :: as => (zipSegs segs as).map (PSeg.name a.alts :: ·)
+  | .hole :: _, [] => none
+
+/-- a generated row in the vocabulary of the specification -/
+def specRow (e : Endpoint) : Option SpecRow :=
+  match parseTemplate e.template.toList with
+  | none => none
+  | some segs =>
+    if e.template.isEmpty then some ⟨e.op, e.guard, e.verb, [], e.body, e.headers, e.pass, e.post⟩
+    else (zipSegs segs e.args).map fun p => ⟨e.op, e.guard, e.verb, p, e.body, e.headers, e.pass, e.post⟩
+
+/-! ## table theorems (about the regenerated `Gen.Mgmt.ops`) -/
+
+/-- **Every name that goes into a URL path goes through `quote(name, '')`** (safe set empty), for
+    every HTTP call site of every public operation. -/
+theorem all_names_quoted : ∀ e ∈ Gen.Mgmt.ops, ∀ a ∈ e.args, a.enc = some "" := by
+  decide +kernel
+
+/-- Every call site is a documented endpoint: same verb, same path segments with the same
+    parameter in each name position, same JSON payload members carrying the same arguments, same
+    extra headers, same pass-through of `name/use_regex/page_size`; and every documented endpoint
+    of the table has its call site (the two lists are equal row by row). -/
+theorem table_matches_spec : Gen.Mgmt.ops.map specRow = Spec.endpoints.map some := by
+  decide +kernel
+
+/-- the HTTP method on the wire is one of the four documented ones for every row that sends a
+    request (delegating rows send none themselves) -/
+theorem verbs_known : ∀ e ∈ Gen.Mgmt.ops,
+    (httpMethod e).isSome = true ∨
+      e.verb ∈ ["call:ManagementApi.nodes", "call:Exchange.get", "call:Queue.get"] := by
+  decide +kernel
+
+/-- the URL prefix and content type of `HTTPClient._request` -/
+theorem request_constants : Gen.Mgmt.pathPrefix = "api/" ∧ Gen.Mgmt.contentType = "application/json" := by
+  decide
+
+/-! ## quoting -/
+
+/-- percent-decoding a quoted name gives back exactly the UTF-8 bytes of the name -/
+theorem quote_roundtrip (s : Text) : pctDecode (quote "" s) = some (utf8 s) := by
+  simp only [quote, safeBytes_empty]; exact pctDecode_quoteBytes _
+
+/-- a quoted name consists of ASCII letters, digits, `-._~` and `%XX` escapes only … -/
+theorem quote_chars (s : Text) : ∀ c ∈ quote "" s, segChar c = true := by
+  simp only [quote, safeBytes_empty]; exact segChar_quoteBytes _
+
+/-- … so it contains no character that delimits a URL component or a path segment. -/
+theorem quote_no_delimiter (s : Text) :
+    ∀ c ∈ quote "" s, c ∉ ['/', '?', '#', ';', ' ', '&', '=', '+', ':', '@', '\\'] := by
+  intro c hc hmem
+  have h := quote_chars s c hc
+  simp only [List.mem_cons, List.not_mem_nil, or_false] at hmem
+  rcases hmem with rfl | rfl | rfl | rfl | rfl | rfl | rfl | rfl | rfl | rfl | rfl <;>
+    exact absurd h (by decide)
+
+/-- quoting is injective on names: different names give different segments -/
+theorem quote_injective (s t : Text) (h : quote "" s = quote "" t) : utf8 s = utf8 t := by
+  have hs := quote_roundtrip s
+  rw [h, quote_roundtrip t] at hs
+  exact (Option.some.inj hs).symm
+
+/-! ## outcome of a call -/
+
+/-- `HTTPClient._request` ends in a return, `ApiError` or `ApiConnectionError` — nothing else -/
+theorem request_total (t : Transport) :
+    (∃ v, request t = .returned v) ∨ (∃ s, request t = .apiError s) ∨
+      request t = .apiConnectionError := by
+  cases t with
+  | failed => exact Or.inr (Or.inr rfl)
+  | response status body =>
+    simp only [request]
+    split
+    · exact Or.inr (Or.inl ⟨_, rfl⟩)
+    · cases body <;> simp
+
+/-- a transport failure raises `ApiConnectionError` -/
+theorem transport_failure : request .failed = .apiConnectionError := rfl
+
+/-- an HTTP error status raises `ApiError` carrying exactly that status, whatever the body -/
+theorem error_status (status : Nat) (body : Body) (h : 400 ≤ status ∧ status < 600) :
+    request (.response status body) = .apiError status := by
+  simp [request, raisesForStatus, h.1, h.2]
+
+/-- an error object in the body raises `ApiError` carrying the status, whatever the status -/
+theorem error_object (status : Nat) : request (.response status .errorObject) = .apiError status := by
+  simp only [request]; split <;> rfl
+
+/-- `ApiError` is raised only for an error status or an error object, and carries the status of
+    the response it was raised for -/
+theorem apiError_only_for_errors (t : Transport) (s : Nat) (h : request t = .apiError s) :
+    ∃ body, t = .response s body ∧ ((400 ≤ s ∧ s < 600) ∨ body = .errorObject) := by
+  cases t with
+  | failed => simp [request] at h
+  | response status body =>
+    simp only [request] at h
+    split at h
+    · rename_i hs
+      cases h
+      simp only [raisesForStatus, Bool.and_eq_true, decide_eq_true_eq] at hs
+      exact ⟨body, rfl, Or.inl hs⟩
+    · cases body <;> simp at h
+      subst h; exact ⟨_, rfl, Or.inr rfl⟩
+
+/-- a non-error response with an empty / unparsable body returns `None` -/
+theorem bodyless_returns_none (status : Nat) (h : ¬ (400 ≤ status ∧ status < 600)) :
+    request (.response status .notJson) = .returned .none := by
+  have : raisesForStatus status = false := by
+    simp only [raisesForStatus, Bool.and_eq_false_iff, decide_eq_false_iff_not]
+    by_cases h1 : 400 ≤ status
+    · exact Or.inr (fun h2 => h ⟨h1, h2⟩)
+    · exact Or.inl h1
+  simp [request, this]
+
+/-- the full "nothing else escapes" claim over all operations and server behaviours -/
+def NothingElseEscapes : Prop :=
+  ∀ e ∈ Gen.Mgmt.ops, ∀ (paginated documented : Bool) (t : Transport) (c : String),
+    callOutcome (postKind e paginated) documented t ≠ some (.escaped c)
+
+/-- The code does not satisfy it: `Basic.get` on a 200 response without a JSON body raises
+    TypeError (`for message in None`).  Recorded as known finding
+    `C19/escape/TypeError/iterating-bodyless-2xx`. -/
+theorem not_nothingElseEscapes : ¬ NothingElseEscapes := by
+  intro h
+  have he : (findOp "Basic.get" "").isSome = true := by decide
+  obtain ⟨e, hfind⟩ := Option.isSome_iff_exists.1 he
+  have hmem : e ∈ Gen.Mgmt.ops := List.mem_of_find?_eq_some hfind
+  have hpost : postKind e false = .iterates := by
+    have : ((findOp "Basic.get" "").map (postKind · false)) = some .iterates := by decide
+    rw [hfind] at this; exact Option.some.inj this
+  have := h e hmem false false (.response 200 .notJson) "TypeError"
+  rw [hpost] at this
+  exact this (by decide)
+
+/-- What holds: for every operation that returns the client's result as it is (all but
+    `Basic.get`, `ManagementApi.top` and paginated listings) nothing but `ApiError` /
+    `ApiConnectionError` escapes, for every server behaviour; and for the operations that iterate
+    the result the same holds whenever the response is an error, a transport failure, or a 2xx
+    response whose JSON body has the documented shape.  Missing for the full claim: a 2xx response
+    with an empty, unparsable or `null` body handed to an iterating operation. -/
+theorem nothing_else_escapes_partial (e : Endpoint) (paginated : Bool) (t : Transport) (c : String)
+    (h : postKind e paginated = .plain ∨ request t ≠ .returned .none) :
+    callOutcome (postKind e paginated) true t ≠ some (.escaped c) := by
+  rcases h with h | h
+  · rw [h]
+    simp only [callOutcome]
+    rcases request_total t with ⟨v, hv⟩ | ⟨s, hs⟩ | hc <;> simp_all
+  · cases hk : postKind e paginated with
+    | plain =>
+      simp only [callOutcome]
+      rcases request_total t with ⟨v, hv⟩ | ⟨s, hs⟩ | hc <;> simp_all
+    | iterates =>
+      rcases request_total t with ⟨v, hv⟩ | ⟨s, hs⟩ | hc
+      · cases v with
+        | none => exact absurd hv h
+        | object => simp [callOutcome, hv]
+        | other => simp [callOutcome, hv]
+      · simp [callOutcome, hs]
+      · simp [callOutcome, hc]
+
+/-- which operations iterate the client's result (by the regenerated table) -/
+theorem iterating_ops :
+    (Gen.Mgmt.ops.filter (fun e => e.post ≠ "")).map (·.op) =
+      ["ManagementApi.top", "ManagementApi.top", "Basic.get"] := by decide
+
+/-! ## Non-vacuity -/
+example : quote "" "a/b ?#%é".toList = "a%2Fb%20%3F%23%25%C3%A9".toList := by decide +kernel
+example : pctDecode "a%2Fb%20%3F%23%25%C3%A9".toList = some (utf8 "a/b ?#%é".toList) := by
+  decide +kernel
+example : (findOp "Queue.get" "").bind (fun e => (url ⟨"http://h:15672".toList, []⟩ e
+      [("queue", "a/b".toList), ("virtual_host", "/".toList)]).toOption) =
+    some "http://h:15672/api/queues/%2F/a%2Fb".toList := by decide +kernel
+example : (findOp "Queue.unbind" "").bind (fun e => (url ⟨"https://mq.example".toList, "/r/".toList⟩ e
+      [("queue", "q?".toList), ("exchange", "é#".toList), ("routing_key", "k/1".toList),
+       ("virtual_host", "v h".toList)]).toOption) =
+    some "https://mq.example/r/api/bindings/v%20h/e/%C3%A9%23/q/q%3F/k%2F1".toList := by decide +kernel
+example : request (.response 404 .errorObject) = .apiError 404 ∧
+    request (.response 200 .object) = .returned .object ∧
+    request (.response 204 .notJson) = .returned .none := by decide
 
 end Amqp.C19
